@@ -10,6 +10,12 @@
 (* ring: timestamps are abstracted away, which over-approximates the real merge order).             *)
 (* TLC checks the invariants for every interleaving within the bounds; Variant # "code" switches in *)
 (* one realistic defect each and must make an invariant fail (self-test of the model).              *)
+(* Scope of the invariants (= of C07): a signal counts when it hits a thread that has logged, at a   *)
+(* statement boundary, while a started backend is up and no thread is inside start/stop/exit; the    *)
+(* thread that wins the handler lock is the one spoken about. Everything else the code can do       *)
+(* (signal after stop -> flush_log never answered -> on_alarm) is modelled but not asserted.        *)
+(* "reraise_before_flush" = the handler re-raises without waiting for the flush (on Linux merely     *)
+(* moving raise() in front of flush_log() changes nothing: the signal is blocked in its handler).   *)
 EXTENDS Naturals, Sequences, FiniteSets, TLC, Json
 CONSTANTS Main, Workers, \* the main thread and the worker threads (strings: they appear in exported programs)
           Lifecyclers,  \* threads that may call start / stop / exit
@@ -469,8 +475,11 @@ TypeOK == /\ hlock \in 0..2 /\ xleft \in 0..MaxStarts /\ atexitN \in 0..MaxStart
 ExportA == (Export /\ outcome.kind = "none" /\ outcome'.kind # "none") =>
              PrintT("BEH " \o ToJson([prog |-> hist', outcome |-> outcome',
                                       ndisk |-> [t \in Threads |-> Len(SelectSeq(disk'[t], LAMBDA it : it.k = "s"))]]))
-\* thin out the signal endings so that longer programs are reached in simulation
-SimThin == (nraise' > nraise) => RandomElement(1..8) = 1
+\* simulation only: thin out signal endings, returning workers and exits before any start, so that longer programs
+\* and programs with live workers are reached
+SimThin == /\ (nraise' > nraise) => RandomElement(1..8) = 1
+           /\ (\E w \in Workers : pc[w] # "fin" /\ pc'[w] = "fin") => RandomElement(1..6) = 1
+           /\ (endKind' # endKind /\ starts = 0) => RandomElement(1..10) = 1
 \* the workers are interchangeable
 WorkerSymmetry == Permutations(Workers)
 =============================================================================
